@@ -245,6 +245,23 @@ def r3(ctx):
           one_way_when_true = not one_way_when_true
         tb, fb = U(ty.body).split('.')[-1], U(ty.orelse).split('.')[-1]
         okt = (tb, fb) == (('ONEWAY', 'CALL') if one_way_when_true else ('CALL', 'ONEWAY'))
+    if not okt and isinstance(ty, ast.Name):
+      # the type chosen by an if/else statement: on this path, the value last assigned to the name against the branch taken on the result-class test
+      bi = [k_ for k_, e in enumerate(ev) if e.kind == 'call' and e.node is b][0]
+      asg = [e.node for e in ev[:bi] if e.kind == 'stmt' and isinstance(e.node, ast.Assign) and U(e.node.targets[0]) == ty.id]
+      conds = []
+      for k_, e in enumerate(ev[:bi]):
+        if e.kind == 'cond':
+          cu = U(sym_resolve(e.node, sym_env(ev, k_))).replace(' ', '')
+          neg = False
+          while cu.startswith('not'):
+            cu, neg = cu[3:].lstrip('('), not neg
+          cu = cu.rstrip(')') if cu.count(')') > cu.count('(') else cu
+          if ("_result'" in cu or '_result"' in cu or '_result%' in cu) and (cu.endswith('isNone') or cu.endswith('isnotNone')):
+            missing = (cu.endswith('isNone') == bool(e.info)) != neg
+            conds.append(missing)
+      if asg and len(set(conds)) == 1:
+        okt = U(asg[-1].value).split('.')[-1] == ('ONEWAY' if conds[0] else 'CALL')
     ctx.ob('C14.R3', f, 'ONEWAY iff no <method>_result class', okt, 'message type expression is %s' % (U(ty) if ty is not None else None),
            'a CALL sent as ONEWAY gets no reply (the caller hangs until timeout); a ONEWAY sent as CALL waits for a reply that never comes')
     # args struct built from the message args
